@@ -41,6 +41,13 @@ class Bernoulli(
     def probs(self) -> Float[Array, " dims"]:
         return self.distribution.probs
 
+    def log_prob(self, value: Bool[ArrayLike, " dims"]) -> Float[Array, " dims"]:
+        # distreqx multiplies by the value; an integer/bool operand cannot be differentiated through
+        return self.distribution.log_prob(jnp.asarray(value, dtype=float))
+
+    def prob(self, value: Bool[ArrayLike, " dims"]) -> Float[Array, " dims"]:
+        return self.distribution.prob(jnp.asarray(value, dtype=float))
+
     def mask(self, mask: Bool[Array, " dims"]) -> Bernoulli:
         masked_logits = jnp.where(mask, self.logits, -jnp.inf)
         return Bernoulli(logits=masked_logits)
